@@ -24,7 +24,7 @@ def _install_classifier():
     return orig
 
 def classify(case_line):
-    tags = case_line.get("tags", [])
+    tags = case_line.get("tags") or []
     if (_PASS_CLASS.get(case_line.get("coq")) and "variant:profile-pass-unfixed" in tags
             and "profile-has-pass-rule" in tags):
         return "profile-pass-rule-stale-pass-mark"
